@@ -399,7 +399,7 @@ func init() {
 			lines = readLines(*fIn)
 		} else {
 			r := newRng(*fSeed)
-			lines = append(lines, "least 2 # d0 o o o o o o u0 o o c0 c1 o", "rr 3 # o o o o o o r1 o o o a1 o o o", "rr 3 # o U0 o o U1 o o o U2 o o o U3 o", "least 2 # H H H o o o c0 o c1 o o",
+			lines = append(lines, "least 2 # d0 o o o o o o u0 o o c0 c1 o", "rr 3 # o o o o o o r1 o o o a1 o o o", "rr 3 # o U0 o o U1 o o o U2 o o o U3 o", "least 2 # H H H o o o c0 o c1 o o", "rr 4 # d0 o o o o u0 o o o o o o o o", "rr 3 # o d1 o o o u1 o o o o o o",
 				"rr 3 bh # O0 O1 O0 O1 O0 O1 O0 O1 O0", "random 3 bh # O1 O0 O1 O0 O1 O0 O1 O0 O1 O0")
 			for i := 0; i < *fN; i++ {
 				nb := 2 + r.intn(2)
